@@ -224,6 +224,9 @@ def run_property(pid, tier, seed):
                 log(f'INCONCLUSIVE property={pid} condition={inc}')
             harness_errors += ex.get('harness_errors', [])
             violations += ex.get('violations', [])
+            for kid, text in ex.get('known_lines', []):
+                f = [x for x in findings if x['id'] == kid]
+                known_lines.append(f'KNOWN-FINDING: property={pid} {kid}: {f[0]["what"] if f else ""} [{text[:200]}]')
 
         # -------------------------------------------------- concrete validation of bodies against the real libraries
         if hasattr(h, 'validate'):
